@@ -141,7 +141,18 @@ def _roles(new_ids, ids: dict[str, str]) -> list[str]:
 
 def _blank(row: dict) -> dict:
     return {"src": row["src"], "dst": row["dst"], "shape": row["shape"], "dir": row["dir"], "delivered": False,
-            "newdevs": 0, "devroles": [], "refused": False, "written": False, "cansend": True, "wanted": -1, "exc": ""}
+            "newdevs": 0, "devroles": [], "refused": False, "written": False, "cansend": True, "wanted": -1, "exc": "",
+            "stale": False}
+
+
+def _handled(gwy, pkt) -> bool:
+    """The library's own entity layer took the packet in: its source device holds it as its latest of that code."""
+    dev = gwy.device_by_id.get(pkt.src.id)
+    try:
+        m = dev._msgs_.get(pkt.code) if dev is not None else None
+        return m is not None and m._pkt.payload == pkt.payload and m._pkt.dtm == pkt.dtm
+    except Exception:  # noqa: BLE001
+        return False
 
 
 async def _drain(n: int = 3) -> None:
@@ -318,6 +329,7 @@ async def run_gateway(run: dict) -> list[dict]:
     cfg, ids, opts, out = run["cfg"], run["ids"], run.get("opts", {}), []
     rows = [(n, r) for n, r in enumerate(run["rows"]) if r["dir"] == "rx"]
     groups: dict[Any, list] = {}
+    retry: list = []
     for n, r in rows:
         groups.setdefault(n if opts.get("fresh") else r["src"], []).append((n, r))
     for grp in groups.values():
@@ -336,7 +348,19 @@ async def run_gateway(run: dict) -> list[dict]:
             o["delivered"] = len(got) > 0
             o["newdevs"] = len(set(gwy.device_by_id) - before)
             o["devroles"] = _roles(set(gwy.device_by_id) - before, ids)
+            if o["delivered"] and not row.get("drop") and not opts.get("fresh") and not _handled(gwy, pkt):
+                retry.append((o, fr))
             out.append(o)
+        await gwy.stop()
+    # a packet that reached the application but not the library's own entity layer: is that the packet (code /
+    # device class rules of the dispatcher) or what this gateway had received before?  The same packet alone,
+    # in a gateway of its own, tells: handled there = it was dropped here because of earlier traffic ("stale")
+    for o, fr in retry[:400]:
+        gwy, t, got = await _make_gateway(cfg, ids, bool(opts.get("eavesdrop")))
+        pkt = t.make_pkt(fr)
+        t.loop.call_soon(gwy._protocol.pkt_received, pkt)
+        await _drain(6)
+        o["stale"] = _handled(gwy, pkt)
         await gwy.stop()
     return out
 
